@@ -135,7 +135,7 @@ harness!(name=c19_shuffle2_3, prop=C19, mode=U, kind=normal, tier=thorough, unwi
 // @bound c19_perm_: data length N = 2, 3 (instance), opaque data incl. repeated values (U), every RNG stream
 // @claim c19_perm_: shuffle's output is the image of its input under one of the N! permutations; shuffle_two's outputs are the images of both inputs under one common permutation (U)
 // @modes c19_perm_: U
-// @cap c19_perm_: 150
+// @cap c19_perm_: 240
 const P2: [[usize; 2]; 2] = [[0, 1], [1, 0]];
 const P3: [[usize; 3]; 6] = [[0, 1, 2], [0, 2, 1], [1, 0, 2], [1, 2, 0], [2, 0, 1], [2, 1, 0]];
 fn image_of<const N: usize>(out: &[f64], inp: &[f64; N], p: &[usize; N]) -> bool {
@@ -177,7 +177,10 @@ fn perm2<const N: usize, const M: usize>(perms: &[[usize; N]; M]) {
 harness!(name=c19_perm_shuffle_2, prop=C19, mode=U, kind=normal, tier=quick, unwind=81, { perm1::<2, 2>(&P2) });
 harness!(name=c19_perm_shuffle2_2, prop=C19, mode=U, kind=normal, tier=quick, unwind=81, { perm2::<2, 2>(&P2) });
 harness!(name=c19_perm_shuffle_3, prop=C19, mode=U, kind=normal, tier=thorough, unwind=83, { perm1::<3, 6>(&P3) });
-harness!(name=c19_perm_shuffle2_3, prop=C19, mode=U, kind=normal, tier=thorough, unwind=83, { perm2::<3, 6>(&P3) });
+// kept in the quick tier with a short cap: its unsat direction needs more than the thorough cap, its sat direction
+// (a paired shuffle that unpairs repeated values needs three elements) is found in seconds
+// @cap c19_perm_shuffle2_3: 40
+harness!(name=c19_perm_shuffle2_3, prop=C19, mode=U, kind=normal, tier=quick, unwind=83, { perm2::<3, 6>(&P3) });
 harness!(name=c19_shuffle2_mismatch, prop=C19, mode=U, kind=mustpanic, tier=quick, unwind=80, {
     let a: [f64; 2] = inp::arr(0);
     let b: [f64; 3] = inp::arr(100);
